@@ -194,22 +194,31 @@ func execLifetime(t *testing.T, p *Plan) *Result {
 		// backends answer: INVITE with the scripted Expires, everything else with 200 / scripted status
 		respExpires := map[string]int{}
 		respStatus := map[string]int{}
+		ringing := map[string]int{}
 		d.respScript = func(party string, m *sipwire.Msg, id string) []respPlan {
 			rp := respPlan{delay: 300 * time.Microsecond, status: 200, expires: -1}
+			var out []respPlan
 			if e, ok := respExpires[id]; ok {
 				rp.expires = e
 				rp.toTag = "tt" + strings.ReplaceAll(id, ".", "")
+				switch ringing[id] {
+				case 1: // a tagged 18x (an early dialog) precedes the answer that carries the Expires
+					out = append(out, respPlan{delay: 200 * time.Microsecond, status: 180, toTag: rp.toTag, expires: -1})
+				case 2:
+					out = append(out, respPlan{delay: 200 * time.Microsecond, status: 183, toTag: rp.toTag, expires: 0})
+				}
 			}
 			if s, ok := respStatus[id]; ok {
 				rp.status = s
 			}
-			return []respPlan{rp}
+			return append(out, rp)
 		}
 		// when the establishing response is handed to the proxy
 		establish := func(op *Op) {
 			ids := idsOf(op)
 			reqID := op.ID + ".inv"
 			respExpires[reqID] = op.I["expires"]
+			ringing[reqID] = op.I["prov"] // 0: answered directly, 1/2: tagged 18x first
 			var extra []sipwire.Header
 			if e := op.I["reqExpires"]; e >= 0 {
 				extra = append(extra, sipwire.Header{Name: "Expires", Value: strconv.Itoa(e)})
